@@ -397,6 +397,20 @@ func genC17(c *Ctx) {
 		out := c.Emit(teiLine("tei", depth, joinStream(cmds, !c.R.Chance(1, 20))))
 		countTEI(c, out)
 	}
+	// protocol lines far longer than any I/O buffer: a legal game of ~1300 plies (both sides shuffle one stone) in ONE
+	// `position ... moves` line (> 4096 bytes), then `go`: the position must be installed and answered like any other
+	if c.Shard < 4 {
+		size := 4 + c.Shard%3
+		last := string(rune('a'+size-1)) + strconv.Itoa(size)
+		prev := string(rune('a'+size-2)) + strconv.Itoa(size)
+		mv := []string{"a1", last}
+		for len(mv) < 1300+4*c.Shard {
+			mv = append(mv, last+"<", "a1>", prev+">", "b1<")
+		}
+		cmds := []string{"teinewgame " + strconv.Itoa(size), "position startpos moves " + strings.Join(mv, " "), "go", "isready"}
+		out := c.Emit(teiLine("tei", 1, joinStream(cmds, true)))
+		c.Count("tei.long-line." + clip(out, 3))
+	}
 	// budgets that run out inside the first ply: positions whose first generated move is illegal (a1 the mover's own stone
 	// next to a wall or capstone; a1 empty and only capstones left cannot arise from startpos) and ordinary ones; every
 	// `go` carries a time argument for the side to move, so a deadline is installed - and has passed
